@@ -61,6 +61,14 @@ def _shape_runs(prop, tier):
         if prop != 28:
             for st, kind in (('ppp', -1), ('p2p', 2), ('2p2', 0), ('u2u', 2)):
                 add(1, st, 2, 2, f1=kind, budget=200)
+    # an unlimited stage feeding a limited one on two workers: the limited stage's wait() must cover items that are
+    # still inside the unlimited stage (its drain loop is the safety net for a missed hand-off at the tail)
+    for st in ('uup', 'pup', '2up'):
+        add(2, st, 2, 1, budget=120)
+    if not q:
+        for st in ('uup', 'pup'):
+            add(2, st, 2, 2, budget=400)
+        add(2, 'uu2', 3, 1, budget=300)
     # ---- four and five stages: bound 0 over every limit tuple, bound 1 on one worker for fixed shapes
     add(0, '****', 3, 0, f1=-2, f2=-2)
     add(0, '*****', 3, 0, f1=-1 if q else -2, f2=2 if q else -2, f3=0 if q else -2, budget=150)
